@@ -537,7 +537,7 @@ fn follow_alphabet() -> Vec<Follow> {
 pub fn explore(thorough: bool, deadline: Instant) -> (J, Vec<J>) {
     let t0 = Instant::now();
     let max_n = if thorough { 5 } else { 4 };
-    let depth = if thorough { 3 } else { 2 };
+    let depth = if thorough { 4 } else { 3 };
     let fa = follow_alphabet();
     let mut heads: Vec<(usize, Container, bool, usize, usize, SplitOp)> = Vec::new();
     for ci in 0..CFGS.len() {
